@@ -1,10 +1,12 @@
 use crate::common::Engine;
 pub mod swapmath;
+pub mod vault;
 
 pub fn make(name: &str, variant: &str) -> Option<Box<dyn Engine>> {
     let _ = variant;
     match name {
         "swapmath" => Some(Box::new(swapmath::SwapMath::default())),
+        "vault" => Some(Box::new(vault::VaultEngine::default())),
         _ => None,
     }
 }
